@@ -910,4 +910,17 @@ def runA (base : Nat) (cfg : Cfg) : Heap → List Op → Option Heap
 /-- `pool_engage` of a zone that OVERLAPS cells already engaged: nothing in the code notices -/
 def engageTwice (size elemsz : Nat) : Pool := (Pool.init.engage size elemsz).engageAt 0 size elemsz
 
+
+/-! ## the first statement of malloc / free / realloc: `if (critical_context_level() > 0) abort();` -/
+
+/-- a request made at critical-context level `lvl`: `none` = `abort()`, otherwise the request -/
+def stepCtx (lvl : Nat) (base : Nat) (cfg : Cfg) (h : Heap) (op : Op) : Option (Option Res) :=
+  match op with
+  | .free none => some (some ⟨h, none, []⟩)          -- `if (p == 0) return;` comes first in free
+  | _ => if lvl > 0 then none else some (stepA base cfg h op)
+
+/-- `void *cell(int i) { return (char *)_zone + _elemsz * i; }` (offset from the zone);
+`unlinked_iterator::operator*` = `cell(_num)` -/
+def IPool.cell (p : IPool) (i : Nat) : Nat := p.elemsz * i
+
 end Igris.C10
